@@ -188,7 +188,9 @@ func Parse(line string, b literal.Builder) (*Triple, error) {
 	raw := strings.TrimSpace(line)
 	idxp := pSplit.FindIndex([]byte(raw))
 	idxo := oSplit.FindIndex([]byte(raw))
-	if len(idxp) == 0 || len(idxo) == 0 {
+	if len(idxp) == 0 || len(idxo) == 0 || idxp[1]-1 > idxo[0]+1 {
+		// No separators found, or the predicate-object separator shows up
+		// before the subject-predicate one.
 		return nil, fmt.Errorf("triple.Parse could not split s p o  out of %s", raw)
 	}
 	ss, sp, so := raw[0:idxp[0]+1], raw[idxp[1]-1:idxo[0]+1], raw[idxo[1]-1:]
